@@ -176,13 +176,15 @@ CHECKS = {
             "hvSlice_eq_hvCells (discrete Fubini) and hvSlice_eq_volume for the executable reference; hvCells_set/perm/dup/dominated/boundary, hv_mono, hv_nonneg, "
             "hv_single, hv_inclusion_exclusion, hvIE_eq_hvCells, hv_1d(+_min), hv_2d staircase, indicator_least, population_coord/hv/hv_volume/default_ref) hold for all "
             "point lists and reference points over Q. pyhv's algorithm is transcribed (Core/HvSweep.lean: multi-linked list, hvRecursive with caches, bounds pruning and "
-            "ignore marking) and diffed on every case against pyhv's value AND internal state; proved about it: sweep_terminates + sweep_restores_lists (all d), sweep_1d, "
-            "sweep_2d, hv_slab_step / hv_slab_decomposition (all d), sweep_eq_hvCells_partial (d <= 3); sweep_3d (through the general case of hvRecursive), hvCells_coordinate_symmetry, hv_slab_step_last; open: sweep_eq_hvCells_Statement for d >= 4 (cache reuse below bounds, ignore marks). The dimension-sweep implementations (_hv.c rebuilt from the working tree on every run, pyhv.py) and the two wrappers "
+            "ignore marking) and diffed on every case against pyhv's value AND internal state; proved about it: sweep_eq_hvCells / sweep_eq_volume - the transcription returns the "
+            "specification, hence the Lebesgue measure, in EVERY dimension (induction over the levels of hvRecursive with an invariant on the linked lists, the cached areas / "
+            "volumes below the bounds and the soundness of the ignore marks: Lemmas/C15Gen1-7), plus sweep_terminates, sweep_restores_lists, sweep_1d/2d/3d as directly proved "
+            "instances, hv_slab_step / hv_slab_decomposition, hvCells_coordinate_symmetry. No unproved statement remains. The dimension-sweep implementations (_hv.c rebuilt from the working tree on every run, pyhv.py) and the two wrappers "
             "with both backends are diffed against hvSlice on exactly representable inputs (exhaustive small domain, every permutation for <=5 points, tie-heavy d<=7), on "
             "general-position doubles (1e-12 relative against the exact Rat measure of the doubles' exact values), and under every calling convention (lists, tuples, int "
             "arrays, the same array twice, zero reference); an independent inclusion-exclusion oracle checks every answer.",
-            TB + "partial: the proof covers the specification, the wrappers and pyhv's algorithm up to d = 3 (plus termination, list restoration, coordinate symmetry and the slab decomposition for all d); the C "
-            "extension (variant with AVL tree) is validated only, pyhv for d >= 4 by value and state correspondence. IEEE products of the dyadic test inputs are exact "
+            TB + "partial: the proof covers the specification, the wrappers and pyhv's algorithm in every dimension; that pyhv.py executes the transcription is the value-and-state correspondence; the C "
+            "extension (variant with AVL tree) is validated only. IEEE products of the dyadic test inputs are exact "
             "(checked per case); C compiler, extension loading, numpy.argmax/max trusted.",
             "Lean 4 proof (Mathlib measure theory) over a specification-level model + differential correspondence of two implementations + oracle"),
     "C18": ("full",
